@@ -1,9 +1,9 @@
-\* thorough (TLC only): 3 keys x 3 values x buckets a,b nested to depth 2
+\* thorough (TLC only): 3 keys x {empty,v1} x buckets a,b nested to depth 2
 INIT Init
 NEXT Next
 CONSTANTS
   KeyOrder <- K3
-  ValSet <- V3
+  ValSet <- V2
   NameOrder <- N2
   MaxDepth = 2
   BlockOrder <- B0
